@@ -30,6 +30,21 @@ func runC27(c *Ctx) {
 		return ok && ue.Op == token.ARROW && selField(info, ue.X) == fld
 	}
 
+	// the batch: the slice the writer goroutine sends as RemoteTellRequest.RemoteMessages
+	batchVar := func() types.Object {
+		var out types.Object
+		ast.Inspect(run.Decl.Body, func(nd ast.Node) bool {
+			if kv, ok := nd.(*ast.KeyValueExpr); ok {
+				if id, ok := kv.Key.(*ast.Ident); ok && id.Name == "RemoteMessages" {
+					if o := objOf(info, kv.Value); o != nil {
+						out = o
+					}
+				}
+			}
+			return true
+		})
+		return out
+	}
 	c.Rule("single-writer", func() {
 		nRecv, nSend := 0, 0
 		for _, u := range c.UsesOf(inF) {
@@ -62,14 +77,7 @@ func runC27(c *Ctx) {
 		c.Check(n == 1, "one-writer", "exactly one writer goroutine per coalescer", c.P.Pos(newC.Decl.Pos()), "run is started more or less than once")
 		// batch is only appended / truncated, never sorted or indexed-assigned out of order
 		var batch types.Object
-		ast.Inspect(run.Decl.Body, func(nd ast.Node) bool {
-			if as, ok := nd.(*ast.AssignStmt); ok && as.Tok == token.DEFINE && len(as.Lhs) == 1 {
-				if id, ok := as.Lhs[0].(*ast.Ident); ok && id.Name == "batch" {
-					batch = info.Defs[id]
-				}
-			}
-			return true
-		})
+		batch = batchVar()
 		if batch == nil {
 			c.Fail("run: batch variable not found")
 		}
@@ -158,11 +166,11 @@ func runC27(c *Ctx) {
 			}
 			for _, l := range as.Lhs {
 				if ix, ok := l.(*ast.IndexExpr); ok {
-					if o := objOf(info, ix.X); o != nil && o.Name() == "batch" {
+					if o := objOf(info, ix.X); o != nil && o == batchVar() {
 						return true
 					}
 				}
-				if o := objOf(info, l); o != nil && o.Name() == "batch" {
+				if o := objOf(info, l); o != nil && o == batchVar() {
 					return true
 				}
 			}
@@ -271,7 +279,7 @@ func runC27(c *Ctx) {
 			if id, ok := call.Fun.(*ast.Ident); !ok || id.Name != "len" {
 				return false, false
 			}
-			if o := objOf(info, call.Args[0]); o == nil || o.Name() != "batch" {
+			if o := objOf(info, call.Args[0]); o == nil || o != batchVar() {
 				return false, false
 			}
 			v, isC := constInt(info, cm.R)
